@@ -946,7 +946,7 @@ func main() {
 			kind := "survey/well-formed"
 			ssidLen := uint64(2 + r.Intn(3))
 			announced := ssidLen
-			if r.Intn(2) == 0 {
+			if i%3 == 0 {
 				announced = lens[r.Intn(len(lens))]
 				kind = "survey/ssid-length-inflated"
 			}
@@ -957,11 +957,9 @@ func main() {
 			if which == 0 { // lookupQuery: ssid, from, until, start id, limit
 				pl = append(pl, 0, 0)
 				idLen := uint64(r.Intn(4))
-				if r.Intn(3) == 0 {
-					idLen = lens[r.Intn(len(lens))]
-					if kind == "survey/well-formed" {
-						kind = "survey/id-length-inflated"
-					}
+				if i%3 == 1 { // a well-formed ssid, then an id that announces more than there is
+					idLen = []uint64{100, 1 << 16, 1 << 24, 1 << 26, 1 << 28}[r.Intn(5)]
+					kind = "survey/id-length-inflated"
 				}
 				pl = append(pl, uv(idLen)...)
 				pl = append(pl, vlib.RandBytes(r, r.Intn(4))...)
